@@ -16,5 +16,13 @@ for cfg in CFGS:
         sig = [l["ty"] for l in it.locals[:it.arg_count + 1]]
         e = out.setdefault(p, {"sig": sig, "vis": "pub" if str(it.get("vis", "")).startswith("Public") else "priv", "cfgs": [], "fp": facts.fingerprint(it)})
         e["cfgs"].append(cfg)
+adts = {}
+for cfg in CFGS:
+    fb = facts.FactBase(cfg, m[cfg]["dir"], renames=False)
+    for p, a in fb.adts.items():
+        if a.get("kind") == "Struct" and p.startswith(("rln::", "zerokit_utils::")) and len(a["variants"]) == 1:
+            adts.setdefault(p, [[f["name"], f["ty"]] for f in a["variants"][0]["fields"]])
+out["__adts__"] = adts
 json.dump(out, open('/verif/zkrules/known_signatures.json', 'w'), indent=0, sort_keys=True)
+print(len(adts), "structs")
 print(len(out), "functions")
